@@ -77,6 +77,8 @@ pub enum Op {
     LazyFont(u32),
     /// operations of a form XObject
     FormOps(u64),
+    /// fully decoded data of an image stream through its *image* view (ImageXObject.inner.data)
+    ImageStreamData(u64),
     /// catalog-level walks: destination name tree, page labels, outline chain
     Trees,
 }
@@ -94,6 +96,7 @@ impl Op {
             Op::LazyAnnots(_) => "lazy_annots".into(),
             Op::LazyFont(_) => "lazy_font".into(),
             Op::FormOps(_) => "form_operations".into(),
+            Op::ImageStreamData(_) => "image_stream_data".into(),
             Op::Trees => "catalog_trees".into(),
         }
     }
@@ -109,6 +112,7 @@ impl Op {
             Op::LazyAnnots(n) => json!({ "op": "lazy_annots", "n": n }),
             Op::LazyFont(n) => json!({ "op": "lazy_font", "n": n }),
             Op::FormOps(i) => json!({ "op": "form_operations", "id": i }),
+            Op::ImageStreamData(i) => json!({ "op": "image_stream_data", "id": i }),
             Op::Trees => json!({ "op": "catalog_trees" }),
         }
     }
@@ -126,6 +130,7 @@ impl Op {
             "lazy_annots" => Op::LazyAnnots(n()?),
             "lazy_font" => Op::LazyFont(n()?),
             "form_operations" => Op::FormOps(id()?),
+            "image_stream_data" => Op::ImageStreamData(id()?),
             "catalog_trees" => Op::Trees,
             _ => return None,
         })
@@ -325,6 +330,16 @@ pub fn exec(file: &SimFile, res: &impl Resolve, own_resolver: bool, op: &Op) -> 
             Err(e) => Answer::err(&e),
         },
         Op::PageWalk(n) => page_walk(file, res, own_resolver, n),
+        Op::ImageStreamData(id) => match res.get::<XObject>(r(id)) {
+            Ok(x) => match *x {
+                XObject::Image(ref img) => match img.inner.data(res) {
+                    Ok(d) => Answer::ok_bytes(&d),
+                    Err(e) => Answer::err(&e),
+                },
+                _ => Answer::ok_text("not an image".into()),
+            },
+            Err(e) => Answer::err(&e),
+        },
         Op::FormOps(id) => match res.get::<XObject>(r(id)) {
             Ok(x) => match *x {
                 XObject::Form(ref f) => match f.operations(res) {
@@ -524,7 +539,7 @@ pub fn right_ops(id: u64, kind: ObjKind) -> Vec<Op> {
     match kind {
         ObjKind::Pages => v.push(Op::Get(Ty::Pages, id)),
         ObjKind::Font => v.push(Op::Get(Ty::Font, id)),
-        ObjKind::Image => v.extend([Op::Get(Ty::XObject, id), Op::StreamData(id), Op::RawImage(id), Op::ImageData(id), Op::Get(Ty::Stream, id)]),
+        ObjKind::Image => v.extend([Op::Get(Ty::XObject, id), Op::StreamData(id), Op::RawImage(id), Op::ImageData(id), Op::Get(Ty::Stream, id), Op::ImageStreamData(id)]),
         ObjKind::Form => v.extend([Op::Get(Ty::XObject, id), Op::StreamData(id), Op::Get(Ty::Stream, id), Op::FormOps(id)]),
         ObjKind::ObjStm => v.extend([Op::Get(Ty::ObjStm, id), Op::StreamData(id), Op::Get(Ty::Stream, id)]),
         ObjKind::Stream | ObjKind::XRef => v.extend([Op::StreamData(id), Op::Get(Ty::Stream, id)]),
